@@ -144,6 +144,7 @@ Explains(e) ==
       \* macro_rules-generated items: the derived impls behave like the std-derived twin / the field-wise computation
       [] e.ev = "same_as_twin" -> e.equal
       [] e.ev = "deref"       -> ExplainsDeref(e)
+      [] e.ev = "impl_compiles" -> e.rustc_ok      \* operators derived from an unusual but legal user impl compile and are usable
       [] e.ev = "deref_compiles" -> e.rustc_ok     \* a single field of any type is a legitimate target
       [] e.ev = "deref_pinned" -> ~e.rustc_ok     \* DerefMut names the field type: next to a hand-written Deref with another Target rustc must refuse it
       [] OTHER                -> FALSE
